@@ -112,6 +112,26 @@ extern "C" int   __real_munmap(void*, size_t);
 extern "C" int   __real_mprotect(void*, size_t, int);
 extern "C" int   __real_madvise(void*, size_t, int);
 static int g_mprotect_fail = 0;
+// commit state of every page of the deterministic arena (lives in the world: snapshot/restore and the state key see it).
+// A block of the virtual source is "obtained" by committing its pages and "given back" by decommitting exactly those pages.
+static const unsigned VM_PAGES = 64;
+static verif::u8*     g_pages  = nullptr;
+static void vm_pages(void* p, size_t len, int commit)
+{
+    if (!g_pages)
+        return;
+    size_t first = g_up()->offset_of(p) / 4096, n = (len + 4095) / 4096;
+    for (size_t i = first; i < first + n && i < VM_PAGES; ++i)
+    {
+        if (commit == 1 && g_pages[i])
+            T().fail("M-upstream", "commit-of-committed-page", verif::fmt("page %zu of the reservation is committed although it already is (a block was handed out twice or never given back)", i));
+        if (commit == 0 && !g_pages[i])
+            T().fail("M-upstream", "decommit-of-uncommitted-page", verif::fmt("page %zu of the reservation is decommitted although no block committed it (the wrong range is given back)", i));
+        if (commit == 2 && g_pages[i])
+            T().fail("M-upstream", "release-of-committed-page", verif::fmt("page %zu is still committed when its reservation is released (a block was never given back)", i));
+        g_pages[i] = commit == 1;
+    }
+}
 extern "C" void* __wrap_mmap(void* addr, size_t len, int prot, int flags, int fd, off_t off)
 {
     if (prot == PROT_NONE && fd == -1 && g_up())
@@ -131,6 +151,7 @@ extern "C" int __wrap_munmap(void* p, size_t len)
 {
     if (g_up() && g_up()->in_arena(p))
     {
+        vm_pages(p, len, 2);
         g_up()->dealloc(UP_BLOCK, p, 1, len, 4096, 7);
         return 0;
     }
@@ -150,6 +171,7 @@ extern "C" int __wrap_mprotect(void* p, size_t len, int prot)
             T().event("upstream_injected_failure");
             return -1;
         }
+        vm_pages(p, len, prot != PROT_NONE);
         return 0;
     }
     return __real_mprotect(p, len, prot);
@@ -194,11 +216,13 @@ struct arena_policy
     struct extra_t
     {
         blog_t bl;
+        u8     pages[VM_PAGES];
     };
     static void init_extra(extra_t& x)
     {
         std::memset(&x, 0, sizeof x);
-        g_blog = &x.bl;
+        g_blog  = &x.bl;
+        g_pages = x.pages;
     }
     template <class Q = Src>
     static typename std::enable_if<src_traits<Q>::kind == SRC_RAW>::type construct_impl(void* where)
